@@ -149,7 +149,9 @@ func VerifHarness_C02_OpenLog() {
 	fc := verifInventory(1)
 	q := &Querier{client: fc}
 	res := pcommon.NewMap()
-	it, err := q.openLog(context.Background(), container{ID: "id0", labels: containerLabels{labels: map[string]string{"container_id": "id0"}}}, start, end)
+	// through the package's entry point (a one-container selection is the
+	// openLog path), so that the harness does not depend on a helper's signature
+	it, err := q.SelectLogs(context.Background(), start, end, logqlengine.SelectLogsParams{})
 	_ = res
 	vsymAssert(err == nil, "opening a log succeeds")
 	o := fc.logOpts[0]
